@@ -12,8 +12,10 @@ correspondence stream `c01.route`.  `specRoute` / `chosenKey` are the property w
 without any trie (Spec/VHost.lean); `verdict` is the judge the driver applies to the
 implementation's answers.
 
-Domain (`inDomain`): ASCII host spellings of the shapes name, name:port, [v6], [v6]:port,
-bare v6; origin-form request paths (leading `/`).  Outside it the model is still compared
+Domain of the theorems (`inDomain`): host spellings of the shapes name, name:port, [v6], [v6]:port,
+bare v6; origin-form request paths (leading `/`).  The judge (`judged`) additionally restricts to
+ASCII hosts (the model's lower-casing is ASCII; Go's is Unicode) and excludes ACME HTTP-challenge
+requests (intercepted before routing; out of scope).  Outside it the model is still compared
 with the code, but the property is not judged.
 -/
 namespace Casket.Props.C01
@@ -173,12 +175,16 @@ request the model's answer gets the verdict "ok". -/
 theorem C01_model_verdict_ok (sites : List Site) (r : Req) :
     verdict sites r (route sites r) = "ok" := by
   unfold verdict
-  by_cases hd : inDomain sites r = true
-  · simp only [hd, Bool.not_true, Bool.false_eq_true, if_false, C01_refines_spec sites r hd]
+  by_cases hj : judged sites r = true
+  · have hd : inDomain sites r = true := by
+      unfold judged at hj
+      simp only [Bool.and_eq_true] at hj
+      exact hj.1.1.1
+    simp only [hj, Bool.not_true, Bool.false_eq_true, if_false, C01_refines_spec sites r hd]
     cases specRoute sites r with
     | site i p => simp
     | notFound st => simp
-  · simp [hd]
+  · simp [hj]
 
 /-! ### Through the real loader (stream `c01.stack`; loader model = `Casket.AutoHTTPS.inspect` of C15) -/
 
